@@ -1,4 +1,5 @@
-import FcpptProofs.C03.Acc
+import FcpptProofs.C03.Fuel
+import FcpptProofs.C03.Term
 /-!
 # C03 — `parse_help` answers with the help text exactly when the help switch stands alone
 -/
@@ -117,5 +118,151 @@ theorem parseHelp_help_iff (f : Nat) (hlg : String) (p : OP) (args : List String
       injection hu with h1 h2
       subst h1 h2
       exact ⟨.help, by simp, trivial⟩
+
+/-! ## help switches with a short name -/
+
+def HelpRes.isHelp : HelpRes → Bool
+  | .help => true
+  | .result .. => false
+
+theorem useFlag_none_singleton {name : String} {sh : Bool} {a : Arg} (h : a.2 ≠ flagName name sh) :
+    useFlag name sh [a] = none := by
+  simp [useFlag, splitFind, h]
+
+theorem useFlag_some_singleton {name : String} {sh : Bool} {a : Arg} (h : a.2 = flagName name sh) :
+    useFlag name sh [a] = some (a, []) := by
+  simp [useFlag, splitFind, h]
+
+/-- a `unit_switch` succeeds and leaves nothing behind **iff** the state is exactly one token, one of its two names -/
+theorem unitSwitch_ok_nil_iff (f : Nat) (l : String) (sh : Option String) (lg : String) (st : List Arg) (c : Ctx) :
+    (∃ r log, parse (f + 1) (.unitSwitch l sh lg) st c = .ok ([], r, log)) ↔
+      ∃ a, st = [a] ∧ (a.2 = flagName lg false ∨ ∃ s, sh = some s ∧ a.2 = flagName s true) := by
+  rw [parse_unitSwitch_eq]
+  constructor
+  · rintro ⟨r, log, h⟩
+    cases sh with
+    | none =>
+      simp only [parseFlag, flagStep] at h
+      cases hu : useFlag lg false st with
+      | none => simp [hu] at h
+      | some t =>
+        obtain ⟨a, st1⟩ := t
+        simp [hu] at h
+        obtain ⟨rfl, _, _⟩ := h
+        obtain ⟨h1, h2⟩ := (useFlag_all_iff _ _ _ _).mp hu
+        exact ⟨a, h1, .inl h2⟩
+    | some s =>
+      simp only [parseFlag, flagStep] at h
+      cases hu : useFlag lg false st with
+      | none =>
+        simp only [hu] at h
+        cases hu2 : useFlag s true st with
+        | none => simp [hu2] at h
+        | some t =>
+          obtain ⟨a, st1⟩ := t
+          simp [hu2] at h
+          obtain ⟨rfl, _, _⟩ := h
+          obtain ⟨h1, h2⟩ := (useFlag_all_iff _ _ _ _).mp hu2
+          exact ⟨a, h1, .inr ⟨s, rfl, h2⟩⟩
+      | some t =>
+        obtain ⟨a, st1⟩ := t
+        simp only [hu] at h
+        cases hu2 : useFlag s true st1 with
+        | some t2 => simp [hu2] at h
+        | none =>
+          simp [hu2] at h
+          obtain ⟨rfl, _, _⟩ := h
+          obtain ⟨h1, h2⟩ := (useFlag_all_iff _ _ _ _).mp hu
+          exact ⟨a, h1, .inl h2⟩
+  · rintro ⟨a, rfl, h⟩
+    have hnil : ∀ (n : String) (b : Bool), useFlag n b [] = none := fun n b => by simp [useFlag, splitFind]
+    by_cases hl : a.2 = flagName lg false
+    · have hu := useFlag_some_singleton (sh := false) hl
+      cases sh with
+      | none => exact ⟨[(l, .unit)], [(a.1, l)], by simp [parseFlag, flagStep, hu]⟩
+      | some s => exact ⟨[(l, .unit)], [(a.1, l)], by simp [parseFlag, flagStep, hu, hnil]⟩
+    · have hu := useFlag_none_singleton (sh := false) hl
+      rcases h with h | ⟨s, rfl, hs⟩
+      · exact absurd h hl
+      · have hu2 := useFlag_some_singleton (sh := true) hs
+        exact ⟨[(l, .unit)], [(a.1, l)], by simp [parseFlag, flagStep, hu, hu2]⟩
+
+theorem unitSwitch_ne_diverge (f : Nat) (l : String) (sh : Option String) (lg : String) (st : List Arg) (c : Ctx) :
+    parse (f + 1) (.unitSwitch l sh lg) st c ≠ .error .diverge := by
+  rw [parse_unitSwitch_eq]
+  split
+  · rename_i e he; intro h; injection h with h; subst h; exact parseFlag_ne_diverge _ _ _ _ _ _ he
+  · split <;> simp
+
+/-- the record of a successful `unit_switch` -/
+theorem unitSwitch_ok_rec {f : Nat} {l : String} {sh : Option String} {lg : String} {st st' : List Arg} {c : Ctx} {r : Rec} {log : Log}
+    (h : parse (f + 1) (.unitSwitch l sh lg) st c = .ok (st', r, log)) : r = [(l, .unit)] := by
+  rw [parse_unitSwitch_eq] at h
+  split at h
+  · cases h
+  · split at h
+    · simp at h; exact h.2.1.symm
+    · cases h
+
+/-- `parse_help` answers with the help text **iff** the help switch's own parser succeeds on the whole vector and leaves nothing -/
+theorem parseHelp_help_iff_switch (f : Nat) (hsh : Option String) (hlg : String) (p : OP) (args : List String) :
+    (∃ x, parseHelp (f + 2) hsh hlg p args = .ok x ∧ x.isHelp = true) ↔
+      ∃ r log, parse (f + 1) (.unitSwitch "h" hsh hlg) (index args) (helpSum hsh hlg p).optionNames = .ok ([], r, log) := by
+  unfold parseHelp parseToEmpty
+  have hsum := parse_sum_eq (f + 1) "help" (.unitSwitch "h" hsh hlg) p (index args) (helpSum hsh hlg p).optionNames
+  have hnd := unitSwitch_ne_diverge f "h" hsh hlg (index args) (helpSum hsh hlg p).optionNames
+  unfold helpSum at hsum hnd ⊢
+  rw [hsum]
+  cases hu : parse (f + 1) (.unitSwitch "h" hsh hlg) (index args) (OP.sum "help" (.unitSwitch "h" hsh hlg) p).optionNames with
+  | ok t =>
+    obtain ⟨st', r, lg⟩ := t
+    have hr := unitSwitch_ok_rec hu
+    subst hr
+    cases st' with
+    | nil => simp [HelpRes.isHelp]
+    | cons b rest => simp
+  | error e =>
+    have he : e ≠ .diverge := fun hd => hnd (by rw [hu, hd])
+    constructor
+    · rintro ⟨x, hx, hm⟩
+      exfalso
+      revert hx
+      cases e with
+      | diverge => exact absurd rfl he
+      | other =>
+        simp only
+        cases hp : parse (f + 1) p (index args) (OP.sum "help" (.unitSwitch "h" hsh hlg) p).optionNames with
+        | error e2 => cases e2 <;> simp [combineErrors]
+        | ok t2 =>
+          obtain ⟨st2, r2, lg2⟩ := t2
+          by_cases hem : st2.isEmpty = true
+          · simp only [hem, if_true]; intro hx; injection hx with hx; subst hx; simp [HelpRes.isHelp] at hm
+          · simp [hem]
+      | missing m =>
+        simp only
+        cases hp : parse (f + 1) p (index args) (OP.sum "help" (.unitSwitch "h" hsh hlg) p).optionNames with
+        | error e2 => cases e2 <;> simp [combineErrors]
+        | ok t2 =>
+          obtain ⟨st2, r2, lg2⟩ := t2
+          by_cases hem : st2.isEmpty = true
+          · simp only [hem, if_true]; intro hx; injection hx with hx; subst hx; simp [HelpRes.isHelp] at hm
+          · simp [hem]
+    · rintro ⟨r, log, h⟩; cases h
+
+/-- **`parse_help`, any help switch**: the answer is the help text iff the argument vector is exactly the switch:
+`[--<long>]` or `[-<short>]` -/
+theorem parseHelp_help_iff_any (f : Nat) (hsh : Option String) (hlg : String) (p : OP) (args : List String) :
+    (∃ x, parseHelp (f + 2) hsh hlg p args = .ok x ∧ x.isHelp = true) ↔
+      args = [flagName hlg false] ∨ ∃ s, hsh = some s ∧ args = [flagName s true] := by
+  rw [parseHelp_help_iff_switch, unitSwitch_ok_nil_iff]
+  constructor
+  · rintro ⟨a, ha, h⟩
+    obtain ⟨h1, _⟩ := (index_singleton_iff _ _).mp ha
+    rcases h with h | ⟨s, hs, h⟩
+    · exact .inl (by rw [h1, h])
+    · exact .inr ⟨s, hs, by rw [h1, h]⟩
+  · rintro (h | ⟨s, hs, h⟩)
+    · exact ⟨(0, flagName hlg false), (index_singleton_iff _ _).mpr ⟨h, rfl⟩, .inl rfl⟩
+    · exact ⟨(0, flagName s true), (index_singleton_iff _ _).mpr ⟨h, rfl⟩, .inr ⟨s, hs, rfl⟩⟩
 
 end Fcppt.C03
